@@ -205,7 +205,7 @@ def cfg_key(cfg):
 
 
 def _jsonable_env(env):
-    return {k: (str(v) if isinstance(v, Fraction) else v) for k, v in env.items()}
+    return {k: (str(v) if isinstance(v, Fraction) else (repr(v) if isinstance(v, float) else v)) for k, v in env.items()}
 
 
 def run_config_symbolic(pid, cfg, tier, seed):
@@ -214,6 +214,7 @@ def run_config_symbolic(pid, cfg, tier, seed):
     mod = load_prop(pid)
     t0 = time.time()
     tm.reset()
+    tm.set_mode('fp' if cfg.get('domain') == 'fp' else 'real')
     prove.stats_reset()
     rec = {'cfg': cfg, 'obligations': [], 'error': None, 'notes': [], 'paths': 0}
     try:
@@ -346,7 +347,14 @@ def discharge(mod, pid, cfg, o, A, B, timeout_ms, seed, path, swept_goal=None):
         pass
     else:
         res = None
-        if o.replayable and orec['size'] > 40:
+        if cfg.get('domain') == 'fp':
+            from . import fp as _fp
+            genv = _fp.guided_cex_fp(goal, AA, seed=seed)
+            if genv is not None:
+                res = prove.Result('cex', env=genv, note='binary64 point proposed by sampling, decided sat by z3 (QF_FP) with pinned inputs')
+            else:
+                res = _fp.valid_fp(goal, AA, to)
+        elif o.replayable and orec['size'] > 40:
             genv, how = prove.guided_cex(goal, AA, B.sampler(seed + 1), defined=not o.meta.get('no_definedness', False))
             if genv is not None:
                 res = prove.Result('cex', env=genv, note='model proposed by simulation, ' + (
@@ -403,7 +411,7 @@ def discharge(mod, pid, cfg, o, A, B, timeout_ms, seed, path, swept_goal=None):
             if rep.get('status') not in ('reproduced', 'reproduced-other'):
                 # try a model with "nice" (dyadic) values before giving up: float conversion of an
                 # arbitrary rational model can destroy an exact tie the counterexample relies on
-                res2 = nice_model(goal, AA + excl, B, to)
+                res2 = nice_model(goal, AA + excl, B, to) if cfg.get('domain') != 'fp' else None
                 if res2 is not None:
                     rep2 = replay_subprocess(pid, cfg, res2.env, o.name, None)
                     if rep2.get('status') in ('reproduced', 'reproduced-other'):
@@ -458,12 +466,19 @@ def replay_subprocess(pid, cfg, env, obname, decisions=None, keep=None):
         return {'status': 'error', 'path': path, 'detail': 'replay timeout'}
 
 
+def _parse_num(v):
+    try:
+        return Fraction(v)
+    except (ValueError, ZeroDivisionError):
+        return float(v)
+
+
 def replay_case(case):
     """concrete side (runs under /venv/bin/python with the real numpy and the real flowdyn)"""
     from . import loader
     mod = load_prop(case['property'])
     fd = loader.fresh(symbolic=False)
-    env = {k: (Fraction(v) if isinstance(v, str) else v) for k, v in case['env'].items()}
+    env = {k: (_parse_num(v) if isinstance(v, str) else v) for k, v in case['env'].items()}
     B = Backend(False, env=env, fd=fd)
     import warnings
     import numpy
